@@ -5,7 +5,10 @@ Etag, Connection, Transfer-Encoding; write(bytes|str|dict); flush (awaited or no
 redirect; raise HTTPError/Finish/ValueError) x request (GET/HEAD/POST+body, HTTP/1.0, 1.0+keep-alive,
 1.1, 1.1+close, optional If-None-Match matching the ETag the program will get).  The program is run by
 a generic RequestHandler under HTTPServer.handle_stream on the in-memory transport, with a second
-valid request pipelined behind it.  2/5 of the cases use a SLOW transport: a generated write-credit
+valid request pipelined behind it.  2/5 of the cases use a @stream_request_body handler that runs the
+first k (non-terminal) ops in prepare(), i.e. before the request body is read (a flush there sends the
+header block during headers_received), and the rest in the method after the body; the model is the same
+(one program).  2/5 of the cases use a SLOW transport: a generated write-credit
 schedule (cumulative grants anchored at the header end / 5 bytes before the end of the response, i.e. the
 last-chunk / the end of the response, incl. runs of 1-byte grants) is applied with the loop quiescent
 between grants; the wire is judged only after all credit was granted.  What the client finally receives
@@ -35,7 +38,7 @@ Findings on the current tree (open, see known_findings.d/C02.json + findings_inb
   new raise Finish whose implicit finish() asserts (204/304/1xx + buffered chunk): request never answered.
 With the three proposed patches applied to a scratch copy the check is quiet with zero excluded cases.
 
-Sensitivity (quick tier, seed 1, each mutant applied alone to a scratch copy of tornado/; all 14 caught):
+Sensitivity (quick tier, seed 1, each mutant applied alone to a scratch copy of tornado/; all 15 caught):
   http1connection.write_headers: `_chunking_output` ignoring HEAD            -> C02.not_well_framed
   http1connection._format_chunk: over-length guard removed                   -> C02.status / C02.body_bytes_after_bodyless_status
   http1connection.finish: terminating zero-length chunk omitted              -> C02.not_well_framed
@@ -54,6 +57,14 @@ Sensitivity (quick tier, seed 1, each mutant applied alone to a scratch copy of 
       (found by independent mutation testing and MISSED while every case used an unlimited transport; with
       the write-credit schedules it is caught at seeds 1, 2, 3 after 1025 / 1215 / 572 cases, shrunk to
       Connection: close + flush() + 1-byte grants around the last-chunk)
+  http1connection._read_message: server-side `_disconnect_on_finish = not _can_keep_alive(...)` moved behind
+      delegate.headers_received() (guarded by `not _write_finished`): the "undelimited body => close" decision
+      of a header block flushed from prepare() of a stream_request_body handler is overwritten; HTTP/1.0
+      keep-alive connection stays open behind a close-delimited body
+                                                                             -> C02.close_delimited_body_but_connection_stays_open
+      (found by independent mutation testing and MISSED while all output ops ran after the request body;
+      with the prepare()/method split it is caught at seeds 1, 2, 3 after 413 / 563 / 544 cases, shrunk to
+      HTTP/1.0 keep-alive GET + flush() in prepare())
   http1connection.write_headers: 205 added to the no-chunking and close-delimited exemptions but not to the
       body-refusing statuses (streamed 205 body undelimited, connection open)   -> C02.close_delimited_body_but_connection_stays_open
       (found by independent mutation testing and MISSED before the status pool was widened: 205 and other
@@ -71,7 +82,8 @@ RULE = (
     "Hypothesis: handler program of <=8 ops (1/4 free op lists, 1/2 structured header-ops/body-ops/terminal/"
     "trailing-ops, 1/4 template 'body-capable status (19-code pool or any 2xx-5xx except 204/304); non-empty "
     "write; flush; up to 3 more write/flush/finish') x method GET/HEAD/POST x HTTP/1.0|1.1 x Connection "
-    "absent/close/keep-alive x transport fast (3/5) or slow with a write-credit schedule of <=6 symbolic grants (2/5) x "
+    "absent/close/keep-alive x plain handler (3/5) or stream_request_body handler running the first k ops in "
+    "prepare() (2/5) x transport fast (3/5) or slow with a write-credit schedule of <=6 symbolic grants (2/5) x "
     "If-None-Match none/match/weak/star/list/other x request segmentation; non-trivial = flush before "
     "finish, or status 1xx/204/304, or HEAD, or HTTP/1.0; distinct = SHA-1 of the case"
 )
@@ -215,6 +227,7 @@ case_s = st.fixed_dictionaries(
         "prog": weighted((2, free_prog), (4, structured_prog), (2, flush_status_prog)),
         "segments": st.one_of(st.none(), st.lists(st.integers(1, 40), min_size=1, max_size=6)),
         "credit": weighted((3, st.none()), (2, st.lists(grant_s, min_size=1, max_size=6))),
+        "pre": weighted((3, st.none()), (2, st.integers(0, 8))),
     }
 )
 
@@ -309,16 +322,21 @@ def run_case(ctx, case):
     extra = [("If-None-Match", inm)] if inm is not None else []
     req = rm.build_request(method, version, conn, extra, case["post_body"] if method == "POST" else None)
     credit = case.get("credit")
+    pre = case.get("pre")  # k: first k non-terminal ops run in prepare() of a stream_request_body handler
+
+    def app():
+        return rm.make_app(prog, pre=pre)
+
     ref_wire = ref_closed = None
     if credit:
         # slow transport: reference run with a fast one first (anchors for the schedule, differential oracle)
-        ref_wire, ref_closed, _l, _s = httpharness.roundtrip(rm.make_app(prog), req + rm.SECOND_REQUEST,
+        ref_wire, ref_closed, _l, _s = httpharness.roundtrip(app(), req + rm.SECOND_REQUEST,
                                                              segments=case["segments"])
         grants = resolve_grants(credit, ref_wire, method)
-        wire, closed, logs, trace = rm.roundtrip_slow(rm.make_app(prog), req + rm.SECOND_REQUEST,
+        wire, closed, logs, trace = rm.roundtrip_slow(app(), req + rm.SECOND_REQUEST,
                                                       segments=case["segments"], grants=grants)
     else:
-        wire, closed, logs, _s = httpharness.roundtrip(rm.make_app(prog), req + rm.SECOND_REQUEST, segments=case["segments"])
+        wire, closed, logs, _s = httpharness.roundtrip(app(), req + rm.SECOND_REQUEST, segments=case["segments"])
 
     http10_ka = version == "1.0" and (conn or "").lower() == "keep-alive"
     labels = {"method_" + method, "http" + version, "outcome_" + exp.outcome}
@@ -344,6 +362,11 @@ def run_case(ctx, case):
     info = {"case": case, "wire": wire[:600], "closed": closed, "model_status": exp.status, "outcome": exp.outcome,
             "rejected": exp.rejected}
 
+    if pre is not None:
+        k = rm.split_index(rm.resolve_prog(prog), pre)
+        labels.add("split_prepare")
+        if any(op[0] == "flush" for op in prog[:k]):
+            labels.add("split_prepare_flush")  # header block sent before the request body is read
     if credit:
         labels.add("slow_transport")
         info["grants"] = grants[:40]
